@@ -97,8 +97,36 @@ def run_csv(c):
         os.rmdir(d)
 
 
+def run_cli(c):
+    """the command line: non-interactive (--query, output to stdout or to a default-named file) and interactive (the query typed at the
+    prompt, result saved to a default path derived from the input path): the input file is byte-identical afterwards"""
+    import shutil
+    import subprocess
+    import sys
+    d = tempfile.mkdtemp(prefix='c06cli_', dir=os.environ.get('VERIF_SCRATCH'))
+    try:
+        os.mkdir(os.path.join(d, 'home'))
+        inp = os.path.join(d, c['file_name'])
+        dl = {'TAB': '\t'}.get(c['delim'], c['delim'])
+        data = ''.join(dl.join(r) + '\n' for r in c['A']).encode('utf-8')
+        with open(inp, 'wb') as f:
+            f.write(data)
+        env = dict(os.environ, HOME=os.path.join(d, 'home'), PYTHONWARNINGS='ignore')
+        args = [sys.executable, '-m', 'rbql', '--input', inp, '--delim', c['delim']]
+        if c['interactive']:
+            p = subprocess.run(args, input=(c['q'] + '\n').encode('utf-8'), stdout=subprocess.PIPE, stderr=subprocess.STDOUT, env=env, cwd=d, timeout=120)
+        else:
+            p = subprocess.run(args + ['--query', c['q']], stdout=subprocess.PIPE, stderr=subprocess.STDOUT, env=env, cwd=d, timeout=120)
+        after = open(inp, 'rb').read() if os.path.exists(inp) else None
+        return {'sources_ok': after == data, 'error': None, 'rc': p.returncode, 'after': None if after == data else repr(after)[:200], 'out': p.stdout.decode('utf-8', 'replace')[-200:]}
+    finally:
+        shutil.rmtree(d, ignore_errors=True)
+
+
 def run_case(c):
     m = c['mode']
+    if m == 'cli':
+        return run_cli(c)
     if m == 'list':
         return EN.run_case(c)
     if m == 'pandas':
